@@ -126,6 +126,17 @@ def stepLine (s : State) (line : String) : State × String :=
       | .ok s' => (s', "ok " ++ showState s')
       | .error e => (s, errName e ++ " " ++ showState s)
     | _, _, _, _, _ => (s, "bad-op")
+  | ["txblock", dt, fee, txs, f, t, signer, order] =>
+    match nat? dt, nat? fee, nat? txs, nat? f, nat? t, nat? signer with
+    | some dt, some fee, some txs, some f, some t, some sg =>
+      if order != "ft" && order != "tf" then (s, "bad-op") else
+      let (s', r) := txBlock cfg Gen.C14.handlerOrder Gen.C14.migrateHandlers s dt fee txs f t (sigOkOf f t sg order)
+      (s', r ++ " " ++ showState s')
+    | _, _, _, _, _, _ => (s, "bad-op")
+  | ["genesis"] =>
+    -- the migrate module's state exported and imported again (ExportGenesis / InitGenesis as read from the code)
+    let s' := genesisRoundTrip cfg s
+    (s', "ok " ++ showState s')
   | ["key", a] =>
     match nat? a with
     | some a => ({ s with hasKey := ins s.hasKey a }, "ok")
